@@ -553,16 +553,66 @@ struct Datagrams;
 
 const DG_LENS: [usize; 4] = [1, 249, 250, 498];
 const DG_CUTS: [usize; 7] = [0, 1, 5, 9, 10, 40, usize::MAX];
+/// receive buffer sizes for the second part: a whole fragment (every frame of it) in one datagram
+const DG_RX: [usize; 7] = [249, 250, 300, 498, 499, 747, 2048];
 
 impl CaseSpace for Datagrams {
     fn name(&self) -> String {
         "datagram-mode-truncated-datagrams".to_string()
     }
     fn total(&self) -> usize {
-        DG_LENS.len() * DG_LENS.len() * DG_CUTS.len()
+        DG_LENS.len() * DG_LENS.len() * DG_CUTS.len() + DG_RX.len() * 3
     }
     fn run(&self, index: usize, transcript: bool) -> RunResult {
         let mut res = RunResult::default();
+        let base = DG_LENS.len() * DG_LENS.len() * DG_CUTS.len();
+        if index >= base {
+            // the largest fragment the receiver accepts (and one octet less, and a small one), all
+            // of its frames in a single datagram, then a second fragment in another datagram
+            let i = index - base;
+            let rx = DG_RX[i / 3];
+            let len = match i % 3 {
+                0 => rx,
+                1 => rx - 1,
+                _ => 7,
+            };
+            res.obs = index as u64 + 373737;
+            let frag = body(len, 5);
+            let tail = body(3, 9);
+            let frame = |s: &Vec<u8>| link::frame(link::DIR | link::PRM | link::PRI_UNCONFIRMED_USER_DATA, OWN, PEER, s);
+            let mut r = TransportReaderSeam::new(false, OWN, false, false, true, rx, false);
+            let mut got = Vec::new();
+            let mut err = None;
+            let mut seq = 33u8;
+            for f in [&frag, &tail] {
+                let segs = transport::segment(f, seq);
+                seq = (seq + segs.len() as u8) & 0x3F;
+                let datagram: Vec<u8> = segs.iter().flat_map(|sgm| frame(sgm)).collect();
+                r.handle.push(&datagram);
+                let (o, e) = r.drain();
+                got.extend(o);
+                err = err.or(e);
+            }
+            res.transitions += 2;
+            if transcript {
+                res.transcript.push(format!("receive buffer {rx}: a fragment of {len} octets in one datagram, then one of 3 octets: {} deliveries, error {err:?}", got.len()));
+            }
+            let ok = err.is_none()
+                && got.len() == 2
+                && matches!(&got[0], TransportOut::Fragment { src, broadcast: None, data, .. } if *src == PEER && *data == frag)
+                && matches!(&got[1], TransportOut::Fragment { src, broadcast: None, data, .. } if *src == PEER && *data == tail);
+            if !ok {
+                res.violation = Some(Violation::new(
+                    "C08.D2",
+                    "fragment-sent-in-one-datagram-not-delivered",
+                    format!("receive buffer {rx}, fragment of {len} octets in one datagram: {} deliveries, error {err:?}", got.len()),
+                ));
+                return res;
+            }
+            res.nontrivial = true;
+            res.model_states.push((rx * 4 + i % 3) as u64);
+            return res;
+        }
         let lost_len = DG_LENS[index % DG_LENS.len()];
         let i = index / DG_LENS.len();
         let len = DG_LENS[i % DG_LENS.len()];
